@@ -131,6 +131,26 @@ func c19MoreTargets() []c19Target {
 				}})
 		}
 	}
+	// zero-value objects: an ExpandedPublicKey that was never initialised must simply not verify
+	for i := range mixPresets {
+		o := &ed25519.Options{Verify: mixPresets[i]}
+		add(c19Target{name: fmt.Sprintf("ed25519.VerifyExpandedWithOptions[preset%d](zero-value expanded key, signature)", i), size: 64, gen: genEdSig,
+			try: func(c *c19Ctx, prev, b []byte) c19Res {
+				var zero ed25519.ExpandedPublicKey
+				if ed25519.VerifyExpandedWithOptions(&zero, c.aux["msg"], b, o) || ed25519.VerifyExpandedWithOptions(new(ed25519.ExpandedPublicKey), c.aux["msg"], b, o) {
+					return c19Res{ok: true, bad: "a zero-value expanded public key verified a signature"}
+				}
+				v := ed25519.NewBatchVerifier()
+				v.AddExpandedWithOptions(&zero, c.aux["msg"], b, o)
+				v.AddWithOptions(c.aux["pk"], c.aux["msg"], b, o)
+				bo := v.VerifyBatchOnly(det())
+				_, res := v.Verify(det())
+				if bo || len(res) != 2 || res[0] {
+					return c19Res{ok: true, bad: "a batch entry with a zero-value expanded public key was reported valid"}
+				}
+				return c19Res{ok: res[1]}
+			}})
+	}
 	// pre-hashed verification: the message is a 64-byte digest; any other length is a documented panic of
 	// single verification and an invalid entry in a batch
 	add(c19Target{name: "ed25519.VerifyWithOptions[ph](message digest)", size: 64,
